@@ -175,7 +175,10 @@ func (v *FnVC) callCommon(c *ssa.CallCommon, val ssa.Value, pos token.Pos, how s
 		for j, cj := range v.flatten(cl.E) {
 			t := v.specBoolE(cj, cenv, cl)
 			v.behavClause = false
-			v.oblige("pre@call:"+site, v.clauseLabel(cl, k-1, j), t, nil, true, cj.String(), pos)
+			// a precondition labelled "safety" guards only against a panic of the callee: a caller
+			// verified for partial correctness assumes it, like its own safety conditions
+			claimed := !(v.fc.Partial && strings.HasPrefix(cl.Label, "safety"))
+			v.oblige("pre@call:"+site, v.clauseLabel(cl, k-1, j), t, nil, claimed, cj.String(), pos)
 		}
 	}
 	// frame
@@ -328,6 +331,18 @@ func (v *FnVC) applyModifies(fc *FuncContract, cenv *Env, pre State) {
 	for _, m := range fc.Modifies {
 		v.havocItem(m, cenv, pre, oldNext)
 	}
+	// modifies-since: the listed heaps may change on objects at or above the snapshot reference
+	if fc.SinceGhost != "" {
+		if g, ok := v.w.cs.Ghosts[fc.SinceGhost]; ok {
+			var lim string
+			v.withState(pre, func() { lim = v.get(v.w.ghostKey(g)) })
+			for _, key := range sortedKeys(v.sinceKeys(fc)) {
+				oldH := v.get(key)
+				nh := v.havoc(key)
+				v.assume(fmt.Sprintf("(forall ((r! Int)) (! (=> (< r! %s) (= (select %s r!) (select %s r!))) :pattern ((select %s r!))))", lim, nh, oldH, nh))
+			}
+		}
+	}
 	// every call may allocate
 	n := v.havoc("nextref")
 	v.assume(fmt.Sprintf("(>= %s %s)", n, oldNext))
@@ -439,7 +454,8 @@ func (v *FnVC) havocItem(m string, cenv *Env, pre State, oldNext string) {
 			key := v.elemKey(sl.Elem())
 			arr := v.fresh("arr")
 			v.declare(arr, "(Array Int "+v.sortOf(sl.Elem())+")")
-			v.set(key, v.heapSort(key), fmt.Sprintf("(store %s (sl_ref %s) %s)", v.get(key), s.S, arr))
+			// a slice without capacity has no element that could be written
+			v.set(key, v.heapSort(key), fmt.Sprintf("(ite (> (sl_cap %s) 0) (store %s (sl_ref %s) %s) %s)", s.S, v.get(key), s.S, arr, v.get(key)))
 			return
 		}
 		v.unsupported("modifies item " + m)
@@ -637,11 +653,11 @@ func (v *FnVC) appendBuiltin(c *ssa.CallCommon, rt types.Type, pos token.Pos) Te
 		oldArr := fmt.Sprintf("(select %s (sl_ref %s))", heap, s.S)
 		inplace := oldArr
 		for i := int64(0); i < k; i++ {
-			inplace = fmt.Sprintf("(store %s (+ (sl_off %s) (sl_len %s) %d) %s)", inplace, s.S, s.S, i, srcAt(strconv.FormatInt(i, 10)))
+			inplace = fmt.Sprintf("(store %s (idx %s (+ (sl_len %s) %d)) %s)", inplace, s.S, s.S, i, srcAt(strconv.FormatInt(i, 10)))
 		}
 		copied := v.fresh("app.copy")
 		v.declare(copied, "(Array Int "+es+")")
-		v.assume(fmt.Sprintf("(forall ((j Int)) (! (=> (and (<= 0 j) (< j (sl_len %s))) (= (select %s j) (select %s (+ (sl_off %s) j)))) :pattern ((select %s j))))", s.S, copied, oldArr, s.S, copied))
+		v.assume(fmt.Sprintf("(forall ((j Int)) (! (=> (and (<= 0 j) (< j (sl_len %s))) (= (select %s j) (select %s (idx %s j)))) :pattern ((select %s j))))", s.S, copied, oldArr, s.S, copied))
 		grown := copied
 		for i := int64(0); i < k; i++ {
 			grown = fmt.Sprintf("(store %s (+ (sl_len %s) %d) %s)", grown, s.S, i, srcAt(strconv.FormatInt(i, 10)))
@@ -649,7 +665,9 @@ func (v *FnVC) appendBuiltin(c *ssa.CallCommon, rt types.Type, pos token.Pos) Te
 		newcap := v.fresh("app.cap")
 		v.declare(newcap, "Int")
 		v.assume(fmt.Sprintf("(>= %s (+ (sl_len %s) %d))", newcap, s.S, k))
-		res := v.define("app.res", "Slice", fmt.Sprintf("(ite %s (mk_slice (sl_ref %s) (sl_off %s) (+ (sl_len %s) %d) (sl_cap %s)) (mk_slice %s 0 (+ (sl_len %s) %d) %s))", room, s.S, s.S, s.S, k, s.S, fresh, s.S, k, newcap))
+		res := v.defineConst("app.res", "Slice", fmt.Sprintf("(ite %s (mk_slice (sl_ref %s) (sl_off %s) (+ (sl_len %s) %d) (sl_cap %s)) (mk_slice %s 0 (+ (sl_len %s) %d) %s))", room, s.S, s.S, s.S, k, s.S, fresh, s.S, k, newcap))
+		// index bridge: reading the result at i is reading the old slice at i (in place) or the copy at i
+		v.assume(fmt.Sprintf("(forall ((i Int)) (! (= (idx %s i) (ite %s (idx %s i) i)) :pattern ((idx %s i))))", res, room, s.S, res))
 		v.set(key, v.heapSort(key), fmt.Sprintf("(ite %s (store %s (sl_ref %s) %s) (store %s %s %s))", room, heap, s.S, inplace, heap, fresh, grown))
 		return Term{res, rt}
 	}
